@@ -13,8 +13,11 @@ SHIM = """#!/bin/sh
 # the working tree's command line entry point
 for a in "$@"; do printf '%s\\0' "$a" >> "{log}"; done
 printf '\\n==\\n' >> "{log}"
-PYTHONPATH="{src}" PYTHONWARNINGS=ignore PYTHONDONTWRITEBYTECODE=1 exec {py} -c 'import sys; from cminx import main; main(sys.argv[1:])' "$@"
+PYTHONPATH="{src}" PYTHONWARNINGS=ignore PYTHONDONTWRITEBYTECODE=1 exec {py} {entry} "$@"
 """
+# what the executable is: the console script of a pip installation, or src/main.py -- the script the CMake build freezes into
+# the `cminx` binary that the package config binds CMINX_EXECUTABLE to
+ENTRY = {"console": """-c 'import sys; from cminx import main; main(sys.argv[1:])'""", "main.py": '"{src}/main.py"'}
 
 PKG_INIT = """
 macro(set_and_check _var _file)
@@ -65,7 +68,9 @@ class Prop(BaseProp):
             shim = os.path.join(sb, "bin", "cminx")
             os.makedirs(os.path.dirname(shim))
             with open(shim, "w") as f:
-                f.write(SHIM.format(log=log, src=src, py=PY))
+                entry = "main.py" if idx // 9 % 2 else "console"
+                res.see("executable_entry_points", entry)
+                f.write(SHIM.format(log=log, src=src, py=PY, entry=ENTRY[entry].format(src=src)))
             os.chmod(shim, 0o755)
             env = dict(os.environ, HOME=home, XDG_CONFIG_DIRS=os.path.join(home, "nox"))
             env.pop("XDG_CONFIG_HOME", None)
